@@ -27,7 +27,7 @@ def run_behaviour(b):
     """b: {trace, naming, shuf, calls:[...]} -> list of events"""
     name = NAMINGS[b.get('naming', 'int')]
     rng = random.Random(b.get('shuf', 0))
-    idx = {name(i): i for i in range(64)}
+    idx = {name(i): i for i in range(b.get('nmax', 64))}
     pool = {}
     events = []
     suspended = []
